@@ -150,3 +150,28 @@ func Sleep(site string, d time.Duration) {
 	time.Sleep(d)
 	Post(t)
 }
+
+// PoolGet is the simulated (*sync.Pool).Get: inside a simulation the pool
+// always behaves as if it were empty (which sync.Pool is always allowed to
+// be), because its per-P caches would otherwise make the number of New calls
+// depend on the OS scheduler.
+//
+//go:norace
+func PoolGet(p *sync.Pool, site string) any {
+	if !Active() {
+		return p.Get()
+	}
+	if p.New != nil {
+		return p.New()
+	}
+	return nil
+}
+
+// PoolPut is the simulated (*sync.Pool).Put (dropped inside a simulation).
+//
+//go:norace
+func PoolPut(p *sync.Pool, x any, site string) {
+	if !Active() {
+		p.Put(x)
+	}
+}
